@@ -24,6 +24,8 @@ type C16Case struct {
 	All    bool       `json:"all"`
 	// Spell: renumber / renumber-check: how the test file is named on the command line (id | file)
 	Spell string `json:"spell,omitempty"`
+	// Variant selects among several spellings of the same fault (0 = the plain one)
+	Variant int `json:"variant,omitempty"`
 }
 
 var c16Targets = []struct {
@@ -45,6 +47,7 @@ func genC16(t *rapid.T) C16Case {
 		c.UseInc = append(c.UseInc, rapid.Bool().Draw(t, "useinc"))
 	}
 	c.File = rapid.IntRange(0, 2).Draw(t, "file")
+	c.Variant = rapid.IntRange(0, 6).Draw(t, "variant")
 	c.Cmd = rapid.SampledFrom([]string{"generate", "generate-stdin", "update", "update", "compare", "compare-github", "format", "format-check", "update-copyright", "bad-argument", "renumber", "renumber-check"}).Draw(t, "cmd")
 	switch c.Cmd {
 	case "generate", "generate-stdin":
@@ -100,7 +103,24 @@ func genC16(t *rapid.T) C16Case {
 	return c
 }
 
-func c16FaultLines(fault string) []string {
+var c16UnknownProcessor = [][]string{{"##!> frobnicate", "x", "##!<"}, {"##!> Include shared"}, {"##!> incldue shared"}, {"##!>"}, {"##!> 2assemble"}, {"##!> ASSEMBLE"}, {"##!> include-all shared"}}
+var c16BadCmdlineType = [][]string{{"##!> cmdline foo", "ls", "##!<"}, {"##!> cmdline unix-foo", "ls", "##!<"}, {"##!> cmdline windows9", "ls", "##!<"}, {"##!> cmdline Unix", "ls", "##!<"}, {"##!> cmdline unixx", "ls", "##!<"}, {"##!> cmdline unix,windows", "ls", "##!<"}}
+
+func c16FaultLines(fault string, variant ...int) []string {
+	v := 0
+	if len(variant) > 0 {
+		v = variant[0]
+	}
+	switch fault {
+	case "unknown-processor":
+		return c16UnknownProcessor[v%len(c16UnknownProcessor)]
+	case "bad-cmdline-type":
+		return c16BadCmdlineType[v%len(c16BadCmdlineType)]
+	}
+	return c16FaultLinesPlain(fault)
+}
+
+func c16FaultLinesPlain(fault string) []string {
 	switch fault {
 	case "missing-include":
 		return []string{"##!> include does-not-exist"}
@@ -156,7 +176,7 @@ func (c C16Case) build(withFault bool) cli.Tree {
 			t["tests/regression/tests/S/932100.yaml"] = "---\ntests:\n  - test_id: 7\n"
 		}
 	}
-	fl := c16FaultLines(c.Fault)
+	fl := c16FaultLines(c.Fault, c.Variant)
 	for i, tg := range c16Targets {
 		var lines []string
 		w := c.Words[i]
